@@ -493,7 +493,12 @@ class GenEval:
             return None
         if isinstance(st, ast.Return):
             v = Const(None) if st.value is None else self.ev(st.value, env)
-            return ('return', self.freeze_deep(v))
+            try:
+                return ('return', self.freeze_deep(v))
+            except AnalysisError:
+                if self.loop_stack:      # a return from inside the loop that fills the returned accumulator
+                    return ('return', Sym('<accumulator returned from inside its loop>'))
+                raise
         if isinstance(st, ast.Assign):
             # `acc = acc + x` on an accumulator list is an in-place extend
             if len(st.targets) == 1 and isinstance(st.targets[0], ast.Name) and isinstance(st.value, ast.BinOp) \
@@ -1408,7 +1413,10 @@ def show(v):
     if isinstance(v, CallV):
         return f"{v.fn}({', '.join(show(a) for a in v.args)})"
     if isinstance(v, (Bin, Cmp)):
-        return f"({show(v.l)} {v.op} {show(v.r)})"
+        op = {'Eq': '==', 'NotEq': '!=', 'Lt': '<', 'LtE': '<=', 'Gt': '>', 'GtE': '>=', 'In': 'in', 'NotIn': 'not in',
+              'Is': 'is', 'IsNot': 'is not', 'LShift': '<<', 'RShift': '>>', 'BitOr': '|', 'BitAnd': '&', 'BitXor': '^',
+              'Add': '+', 'Sub': '-', 'Mult': '*', 'Mod': '%', 'FloorDiv': '//'}.get(v.op, v.op)
+        return f"({show(v.l)} {op} {show(v.r)})"
     if isinstance(v, BoolV):
         return '(' + f" {v.op} ".join(show(x) for x in v.vals) + ')'
     if isinstance(v, Not):
